@@ -263,8 +263,39 @@ fn check_request(rep: &mut RunReport, who: &str, r: &ReqRecord, cfg: &ClientCfg,
 }
 
 /// the response-side oracle (clauses 4-7)
-fn check_response(rep: &mut RunReport, who: &str, res: &SendResult, s: &Script, request_complete: bool, stalled_timeout: bool) {
-    let stalled_timeout = stalled_timeout || s.drip_ms > 0;
+/// total time the dripping printer sleeps before the end of the attributes has been written (0 if it does not drip)
+fn drip_total_ms(s: &Script) -> u64 {
+    if s.drip_ms == 0 {
+        return 0;
+    }
+    let r = s.render();
+    let upto = r.raw_of_body(s.ipp.len().saturating_sub(1)) + 1;
+    let mut server = crate::printer::Server::new(s);
+    let (mut sent, mut pieces) = (0usize, 0u64);
+    while sent < upto {
+        match server.next(usize::MAX) {
+            crate::printer::Out::Data(d) => {
+                pieces += 1;
+                sent += d.len();
+            }
+            _ => break,
+        }
+    }
+    pieces * s.drip_ms as u64
+}
+
+fn check_response(rep: &mut RunReport, who: &str, res: &SendResult, s: &Script, request_complete: bool, stalled_timeout: bool, timeout_ms: Option<u32>) {
+    // a dripping printer: the time-out clause applies only when the attributes need well over the time-out to arrive;
+    // a drip that costs a small fraction of it changes nothing; anything in between is decided by the real clock and
+    // therefore judged by neither clause (only shrink candidates and hand-written replay files can be there)
+    let drip = drip_total_ms(s);
+    let t = timeout_ms.unwrap_or(u32::MAX) as u64;
+    let dripping = drip > 0 && drip >= t.saturating_mul(5) / 2;
+    if drip > 0 && !dripping && drip > t / 4 {
+        rep.count("skipped_drip_total_near_the_timeout", 1);
+        return;
+    }
+    let stalled_timeout = stalled_timeout || dripping;
     if let SendResult::Panic(p) = res {
         rep.violate("client-panicked", format!("{who}: {p}"));
         return;
@@ -276,7 +307,7 @@ fn check_response(rep: &mut RunReport, who: &str, res: &SendResult, s: &Script, 
         Some("connection reset while the request was being sent")
     } else if s.status >= 400 {
         Some("HTTP error status")
-    } else if s.drip_ms > 0 {
+    } else if dripping {
         Some("the response took several times the configured request timeout to arrive")
     } else {
         match s.fault {
@@ -593,7 +624,7 @@ impl C11 {
             if rep.violation.is_some() {
                 return;
             }
-            check_response(rep, &who, res, s, complete, false);
+            check_response(rep, &who, res, s, complete, false, None);
             if rep.violation.is_some() {
                 return;
             }
@@ -807,7 +838,7 @@ impl C11 {
                 rep.violate("wrong-number-of-connections", format!("one send produced {} connections", seen.len()));
                 return;
             }
-            check_response(rep, &who, res, s, complete, stalled);
+            check_response(rep, &who, res, s, complete, stalled, case.cfg.timeout_ms);
             if rep.violation.is_some() {
                 return;
             }
@@ -994,12 +1025,12 @@ impl Prop for C11 {
                 out.push(d);
             }
             let s = &c.scripts[i];
-            if !s.segments.is_empty() {
+            if !s.segments.is_empty() && s.drip_ms == 0 {
                 let mut d = c.clone();
                 d.scripts[i].segments = vec![];
                 out.push(d);
             }
-            if s.framing != Framing::ContentLength {
+            if s.framing != Framing::ContentLength && s.drip_ms == 0 {
                 let mut d = c.clone();
                 d.scripts[i].framing = Framing::ContentLength;
                 out.push(d);
